@@ -1,4 +1,6 @@
 """First tie: real block_diagonalize (exact, sympy) vs the Lean driver running the translated algorithm."""
+import os, sys; sys.path.insert(0, os.path.dirname(os.path.abspath(__file__)))
+from common import case_rnd, skip
 import sys, json, random, subprocess, itertools, time, warnings
 from fractions import Fraction
 import numpy as np, sympy
@@ -215,6 +217,8 @@ def main(seed, ncases, driver, out, mode="all"):
     proc = subprocess.Popen([driver], stdin=subprocess.PIPE, stdout=subprocess.PIPE, text=True)
     failures = []; stats = {}; samples = []; evals = 0; distinct = set(); t_impl = t_model = t_oracle = 0.0; oracle_cases = 0; in_class_ok = 0
     for c in range(ncases):
+        if skip(c): continue
+        rnd = case_rnd(seed, c)
         hermitian = (rnd.random() < 0.6) if mode == "all" else False
         P = gen_problem(rnd, hermitian)
         maxn = (3,) if P["k"] == 1 else (2, 1)
